@@ -354,6 +354,14 @@ def conc_astype(case):
 
 
 # ------------------------------------------------------------------ C01.numpy
+def _matrix(data, r, c, layout):
+    """the r x c matrix whose row-major reading is `data`, stored row-major ("C") or as the transposed view of a (c, r) block ("T")"""
+    if layout == "C" or r == 0 or c == 0:
+        return common.arr(data, "int64").reshape(r, c)
+    base = [data[i * c + j] for j in range(c) for i in range(r)]
+    return common.arr(base, "int64").reshape(c, r).T
+
+
 def sym_numpy(E, p, kf):
     import z3
     from symx import specs
@@ -363,9 +371,10 @@ def sym_numpy(E, p, kf):
         r = E.concretize(E.int("r", 0, p["R"]))
         c = E.concretize(E.int("c", 0, p["L"]))
         data = gen_cells(E, r * c, "int64")
-        m = common.arr(data, "int64").reshape(r, c)
+        layout = E.choose("layout", ["C", "T"])      # row-major block, or the transposed view of a (c, r) block (column-major memory)
+        m = _matrix(data, r, c, layout)
         got = outcome(lambda: (RaggedArray.from_numpy_array(m), RaggedArray.from_numpy_array(m).to_numpy_array()))
-        case = dict(what=what, r=r, c=c, data=data)
+        case = dict(what=what, r=r, c=c, data=data, layout=layout)
         exp = dict(k="tuple", items=[dict(k="ragged", flat=data, lens=[c] * r, dtype="int64"),
                                      dict(k="array", flat=data, shape=[r, c] if r else [0, 0], dtype="int64" if r else "*")])
         return dict(goal=specs.obs_goal(got, exp), got=got, case=case)
@@ -389,7 +398,7 @@ def conc_numpy(case):
     from npstructures import RaggedArray
     if case["what"] == "from":
         r, c, data = case["r"], case["c"], case["data"]
-        m = common.arr(data, "int64").reshape(r, c)
+        m = _matrix(data, r, c, case.get("layout", "C"))
         got = outcome(lambda: (RaggedArray.from_numpy_array(m), RaggedArray.from_numpy_array(m).to_numpy_array()))
         exp = dict(k="tuple", items=[common.ref_ragged([data[i * c:(i + 1) * c] for i in range(r)], "int64"),
                                      common.ref_array(data, [r, c] if r else [0, 0], "int64" if r else "*")])
@@ -503,3 +512,69 @@ harness("C01.lists", jobs_lists, sym_lists, conc_lists)
 harness("C01.astype", jobs_astype, sym_astype, conc_astype)
 harness("C01.numpy", jobs_numpy, sym_numpy, conc_numpy)
 harness("C01.saveload", jobs_saveload, sym_saveload, conc_saveload)
+
+
+# ------------------------------------------------------------------ C01.mixed: rows given as arrays of different element types
+_PROMOTE = {("uint8", "int16"): "int16", ("bool", "int64"): "int64", ("int8", "uint8"): "int16", ("int16", "uint8"): "int16"}
+
+
+def _mixed_rows(RaggedArray, rows, dts):
+    return RaggedArray([common.arr(r, dts[i % 2]) for i, r in enumerate(rows)])
+
+
+def _mixed_dtype(lens, dts):
+    present = []
+    for i, n in enumerate(lens):
+        if n and dts[i % 2] not in present:
+            present.append(dts[i % 2])
+    if not present:
+        return "*"
+    if len(present) == 1:
+        return present[0]
+    return _PROMOTE[tuple(dts)]
+
+
+def sym_mixed(E, p, kf):
+    import z3
+    from symx import specs
+    from npstructures import RaggedArray
+    dts = p["dts"]
+    R = E.concretize(E.int("R", 0, p["R"]))
+    lens = [E.concretize(E.int(f"l{r}", 0, p["L"])) for r in range(R)]
+    rows = [gen_cells(E, n, dts[i % 2], tag=f"r{i}_") if n else [] for i, n in enumerate(lens)]
+    got = outcome(lambda: _mixed_rows(RaggedArray, rows, dts))
+    case = dict(lens=lens, rows=rows, dts=dts)
+    rdt = _mixed_dtype(lens, dts)
+    flat = []
+    for i, r in enumerate(rows):
+        for cell in r:
+            src = dts[i % 2]
+            if rdt in ("*", src):
+                flat.append(cell)
+            elif src == "bool":
+                flat.append(z3.If(cell, z3.BitVecVal(1, _bits(rdt)), z3.BitVecVal(0, _bits(rdt))))
+            else:
+                ext = z3.SignExt if src.startswith("int") else z3.ZeroExt
+                flat.append(ext(_bits(rdt) - _bits(src), cell))
+    return dict(goal=specs.obs_goal(got, dict(k="ragged", flat=flat, lens=lens, dtype=rdt)), got=got, case=case)
+
+
+def conc_mixed(case):
+    from npstructures import RaggedArray
+    dts, lens = case["dts"], case["lens"]
+    rows = []
+    for i, r in enumerate(case["rows"]):
+        dt = dts[i % 2]
+        b = _bits(dt)
+        rows.append([(bool(v) if dt == "bool" else (v - (1 << b) if dt.startswith("int") and v >= 1 << (b - 1) else v)) for v in r])
+    got = outcome(lambda: _mixed_rows(RaggedArray, rows, dts))
+    rdt = _mixed_dtype(lens, dts)
+    return got, common.ref_ragged([[int(v) for v in r] for r in rows] if rdt != "bool" else rows, rdt)
+
+
+def jobs_mixed(tier, seed):
+    q = tier == "quick"
+    return [dict(h="C01.mixed", p=dict(R=3, L=2 if q else 3, dts=list(d))) for d in _PROMOTE]
+
+
+harness("C01.mixed", jobs_mixed, sym_mixed, conc_mixed)
